@@ -386,6 +386,53 @@ func init() {
 				{Name: "numeric-arguments", Serial: true, Bounds: engine.Bounds{InputDev: -1},
 					Rule: "every int64 of the zoom/layer alphabet as each zoom argument of every function that takes one (invalid => error and the documented empty/false result), quadkey zooms 1..31, options {-1,2}, negative radius/clearance/layers, TileXYZ zooms; non-trivial = distinct (function, argument) with an invalid argument",
 					Body: numericArgs},
+				{Name: "overlap-hit-next-to-malformed", Serial: true, Bounds: engine.Bounds{InputDev: -1},
+					Rule: "array overlap checks (extended and z/f/x/y form) on lists in which a valid ID that really overlaps the other list stands before or after a malformed one (8 kinds of malformed ID), in the first or the second list: the answer is either (true, nil) — the operation stopped at the hit without interpreting the rest — or (false, error); never true together with an error, never (false, nil); non-trivial = distinct (function, malformed ID, placement)",
+					Body: func(c *engine.Ctx) {
+						spatial := c.In("form", 2) == 1
+						bads := []string{"", "a/b/c/d/e", "3/1/2/3", "3/1/2/3/-1/0", "3/1/x/3/-1", "36/0/0/36/0", "3/1/2/3/ 1", "３/1/2/3/-1"}
+						if spatial {
+							bads = []string{"", "a/b/c/d", "3/1/2", "3/-1/1/2/0", "3/x/1/2", "36/0/0/0", "3/-1/1/ 2", "3/99999999/1/2"}
+						}
+						bad := bads[c.In("malformed", len(bads))]
+						place := c.In("placement", 4) // 0: first list [hit,bad]  1: first list [bad,hit]  2: second list [hit,bad]  3: second list [bad,hit]
+						hit, other := goodExt, "2/0/1/2/-1"
+						if spatial {
+							hit, other = goodSp, "2/-1/0/1"
+						}
+						l := []string{hit, bad}
+						if place%2 == 1 {
+							l = []string{bad, hit}
+						}
+						a, b := l, []string{other}
+						if place >= 2 {
+							a, b = b, a
+						}
+						var r bool
+						var e error
+						name := "detector.CheckExtendedSpatialIdsArrayOverlap"
+						p := recoverCall(func() {
+							if spatial {
+								name = "detector.CheckSpatialIdsArrayOverlap"
+								r, e = detector.CheckSpatialIdsArrayOverlap(a, b)
+							} else {
+								r, e = detector.CheckExtendedSpatialIdsArrayOverlap(a, b)
+							}
+						})
+						c.Nontrivial(fmt.Sprint(name, bad, place))
+						c.Observe("%s %q %q -> %v %v %v", name, a, b, r, e, p)
+						c.Outcome(fmt.Sprint(r, e != nil))
+						d := map[string]any{"call": fmt.Sprintf("%s(%s, %s)", name, goList(a), goList(b)), "result": r, "err": fmt.Sprint(e)}
+						switch {
+						case p != nil:
+							d["panic"] = fmt.Sprint(p)
+							c.Violation("C15:"+name+":panic-on-malformed-id", d)
+						case r && e != nil:
+							c.Violation("C15:"+name+":true-together-with-an-error", d)
+						case !r && e == nil:
+							c.Violation("C15:"+name+":silent-false-for-a-list-with-a-malformed-id", d)
+						}
+					}},
 				{Name: "points", Serial: true, Bounds: engine.Bounds{InputDev: -1},
 					Rule: "NewPoint/SetLon/SetLat on float alphabets around +-180 and +-85.0511287798 (sliver (85.0511287798, 85.0511287799) excluded), infinities; accepted points keep lon/alt bit-for-bit and latitude cut toward zero by < 1e-10; nil points in point lookup, line and corridor; non-trivial = distinct coordinates within 1e-6 of a limit",
 					Body: pointArgs},
